@@ -2,6 +2,7 @@ package engine
 
 import (
 	"fmt"
+	"go/token"
 	"sort"
 	"strings"
 
@@ -92,6 +93,7 @@ type Result struct {
 	idx    map[string]int
 	at     map[ssa.Instruction]map[State]nodeKey
 	parent map[nodeKey]parentRec
+	edges  map[[2]int]map[State]bool
 	// Visited counts explored (block,state) pairs; Edges counts transitions.
 	Visited int
 	Edges   int
@@ -102,7 +104,16 @@ func (a *Automaton) Run() *Result {
 	if len(a.Tracks) > 31 {
 		panic("too many tracks")
 	}
-	r := &Result{A: a, idx: map[string]int{}, at: map[ssa.Instruction]map[State]nodeKey{}, parent: map[nodeKey]parentRec{}}
+	r := &Result{A: a, idx: map[string]int{}, at: map[ssa.Instruction]map[State]nodeKey{}, parent: map[nodeKey]parentRec{}, edges: map[[2]int]map[State]bool{}}
+	recEdge := func(from, to int, st State) {
+		k := [2]int{from, to}
+		m := r.edges[k]
+		if m == nil {
+			m = map[State]bool{}
+			r.edges[k] = m
+		}
+		m[st] = true
+	}
 	for i, t := range a.Tracks {
 		r.idx[t.Name] = i
 	}
@@ -138,6 +149,39 @@ func (a *Automaton) Run() *Result {
 					evs[in] = append(evs[in], i)
 				}
 			}
+		}
+	}
+	// correlation: a boolean SSA value branched on by several Ifs has one
+	// value per execution of its defining instruction; later branches on it
+	// must agree with the earlier one (removes infeasible paths soundly).
+	condUse := map[ssa.Value][]*ssa.If{}
+	for _, b := range fn.Blocks {
+		if len(b.Instrs) == 0 {
+			continue
+		}
+		if ifi, ok := b.Instrs[len(b.Instrs)-1].(*ssa.If); ok {
+			v, _ := peelNot(ifi.Cond)
+			condUse[v] = append(condUse[v], ifi)
+		}
+	}
+	corrIdx := map[*ssa.If]int{}
+	corrNeg := map[*ssa.If]bool{}
+	corrDef := map[ssa.Instruction][]int{}
+	nUser := len(a.Tracks)
+	nCorr := 0
+	for v, ifis := range condUse {
+		if len(ifis) < 2 || nUser+nCorr >= 31 {
+			continue
+		}
+		ti := nUser + nCorr
+		nCorr++
+		for _, ifi := range ifis {
+			corrIdx[ifi] = ti
+			_, neg := peelNot(ifi.Cond)
+			corrNeg[ifi] = neg
+		}
+		if def, ok := v.(ssa.Instruction); ok {
+			corrDef[def] = append(corrDef[def], ti)
 		}
 	}
 	kills := make([][]int, len(a.Tracks))
@@ -181,6 +225,9 @@ func (a *Automaton) Run() *Result {
 			if a.StopAt != nil && a.StopAt(in) {
 				return
 			}
+			for _, ti := range corrDef[in] {
+				st = st.set(ti, Unseen)
+			}
 			for _, ti := range evs[in] {
 				st = st.set(ti, True)
 				for _, kj := range kills[ti] {
@@ -193,11 +240,23 @@ func (a *Automaton) Run() *Result {
 				if a.Oracle != nil {
 					choice = a.Oracle(ifi, ic.cond)
 				}
+				ci, hasCorr := corrIdx[ifi]
 				for e := 0; e < 2; e++ {
 					if (e == 0 && choice == FalseOnly) || (e == 1 && choice == TrueOnly) {
 						continue
 					}
 					ns := st
+					if hasCorr {
+						// truth of the underlying value on this edge
+						val := True
+						if (e == 1) != corrNeg[ifi] {
+							val = False
+						}
+						if cur := st.get(ci); cur != Unseen && cur != val {
+							continue // contradicts the earlier branch on the same value
+						}
+						ns = ns.set(ci, val)
+					}
 					for _, ti := range ic.matches {
 						for _, kj := range kills[ti] {
 							ns = ns.set(kj, Unseen)
@@ -211,6 +270,7 @@ func (a *Automaton) Run() *Result {
 						ns = ns.set(ti, v)
 					}
 					nk := nodeKey{b.Succs[e].Index, ns}
+					recEdge(b.Index, nk.block, ns)
 					r.Edges++
 					if !seen[nk] {
 						seen[nk] = true
@@ -227,6 +287,7 @@ func (a *Automaton) Run() *Result {
 		}
 		for _, s := range b.Succs {
 			nk := nodeKey{s.Index, st}
+			recEdge(b.Index, s.Index, st)
 			r.Edges++
 			if !seen[nk] {
 				seen[nk] = true
@@ -259,6 +320,33 @@ func (a *Automaton) Run() *Result {
 		process(k, 0)
 	}
 	return r
+}
+
+// EdgeStates lists the product states with which control flows from block
+// `from` to block `to` (after the branch's own track updates).
+func (r *Result) EdgeStates(from, to *ssa.BasicBlock) []View {
+	var out []View
+	var sts []State
+	for s := range r.edges[[2]int{from.Index, to.Index}] {
+		sts = append(sts, s)
+	}
+	sort.Slice(sts, func(i, j int) bool { return sts[i] < sts[j] })
+	for _, s := range sts {
+		out = append(out, View{r, s})
+	}
+	return out
+}
+
+func peelNot(v ssa.Value) (ssa.Value, bool) {
+	neg := false
+	for {
+		if u, ok := v.(*ssa.UnOp); ok && u.Op == token.NOT {
+			neg = !neg
+			v = u.X
+			continue
+		}
+		return v, neg
+	}
 }
 
 // Reached reports whether the instruction is reachable at all.
